@@ -742,3 +742,19 @@ package io
 //@       forall(j, off(dec.buf) + dec.head, off(dec.buf) + dec.tail, mem(dec.buf, j) == ghost.rstream[ival(dec.reader)][ghost.rpos[ival(dec.reader)] - dec.tail - off(dec.buf) + j])
 //@   requires dec.reader != nil ==> dec.buf == nil || len(dec.buf) > 0
 //@   modifies ghost.*
+
+// big rationals off the wire: a long-integer token that does not parse yields no *big.Int; it
+// must not be handed to Rat.SetInt (C04)
+//@ func (*Decoder).stringToBigInt
+//@   havoc
+//@ func (*Decoder).readBigInt
+//@   havoc
+//@   use decwf
+//@   modifies ghost.rpos[ival(dec.reader)], ghost.rfailed[ival(dec.reader)]
+//@ func (*Decoder).stringToBigRat
+//@   havoc
+//@ func (*Decoder).decodeBigRat
+//@   prop C04
+//@   havoc
+//@   use decwf
+//@   modifies ghost.rpos[ival(dec.reader)], ghost.rfailed[ival(dec.reader)]
